@@ -277,12 +277,26 @@ level = "error"
                 // identity: the server answering on our ports must be OUR child on OUR data directory
                 let mine = matches!(child.try_wait(), Ok(None))
                     && match self.cfg.tenants.iter().find(|t| t.enabled) {
-                        Some(t) => match self.client(Some(key_for(&t.id))).and_then(|mut c| c.get_config().map_err(|e| e.to_string())) {
-                            Ok(cfg) => cfg.data_dir == self.data_dir().to_string_lossy(),
-                            // no answer to GetConfig: cannot be a healthy foreign server (it would answer);
-                            // the ports come from this process's own range, so accept our live child
-                            Err(_) => true,
-                        },
+                        Some(t) => {
+                            // the first real RPC also proves that the gRPC server serves (not only listens);
+                            // retried for a few seconds because a loaded machine delays the accept loop
+                            let mut verdict = true;
+                            for _ in 0..24 {
+                                match self.client(Some(key_for(&t.id))).and_then(|mut c| c.get_config().map_err(|e| e.to_string())) {
+                                    Ok(cfg) => {
+                                        verdict = cfg.data_dir == self.data_dir().to_string_lossy();
+                                        break;
+                                    }
+                                    // no answer: cannot be a healthy foreign server (it would answer); the ports
+                                    // come from this process's own range, so keep our live child
+                                    Err(_) => std::thread::sleep(Duration::from_millis(250)),
+                                }
+                                if !matches!(child.try_wait(), Ok(None)) {
+                                    break;
+                                }
+                            }
+                            verdict
+                        }
                         None => true,
                     };
                 if mine {
@@ -308,6 +322,27 @@ level = "error"
             }
         }
         Err("server did not start".into())
+    }
+
+    /// how the (dead) child ended: "exit code N" or "signal N"; None while it is alive
+    pub fn exit_status(&mut self) -> Option<String> {
+        use std::os::unix::process::ExitStatusExt;
+        match &mut self.child {
+            Some(c) => match c.try_wait() {
+                Ok(Some(st)) => Some(match (st.code(), st.signal()) {
+                    (Some(c), _) => format!("exit code {}", c),
+                    (None, Some(sg)) => format!("signal {}", sg),
+                    _ => "unknown".to_string(),
+                }),
+                _ => None,
+            },
+            None => Some("already stopped by the harness".into()),
+        }
+    }
+
+    /// the child was ended by SIGKILL / SIGTERM, i.e. by something outside the server itself
+    pub fn killed_from_outside(&mut self) -> bool {
+        matches!(self.exit_status().as_deref(), Some("signal 9") | Some("signal 15"))
     }
 
     pub fn alive(&mut self) -> bool {
@@ -368,8 +403,20 @@ level = "error"
     pub fn client(&self, key: Option<String>) -> Result<Cl, String> {
         let ep = format!("http://127.0.0.1:{}", self.grpc_port);
         let rt = self.rt.clone();
-        let ch = rt
-            .block_on(async { Channel::from_shared(ep).map_err(|e| e.to_string())?.connect_timeout(Duration::from_secs(5)).connect().await.map_err(|e| e.to_string()) })?;
+        // on a loaded machine the listener can be bound before the server accepts: retry for a while
+        let t0 = Instant::now();
+        let ch = loop {
+            let ep = ep.clone();
+            match rt.block_on(async { Channel::from_shared(ep).map_err(|e| e.to_string())?.connect_timeout(Duration::from_secs(5)).connect().await.map_err(|e| e.to_string()) }) {
+                Ok(ch) => break ch,
+                Err(e) => {
+                    if t0.elapsed() > Duration::from_secs(20) {
+                        return Err(e);
+                    }
+                    std::thread::sleep(Duration::from_millis(250));
+                }
+            }
+        };
         Ok(Cl {
             c: KyroDbServiceClient::with_interceptor(ch, KeyInt { key }).max_decoding_message_size(64 << 20).max_encoding_message_size(64 << 20),
             rt,
